@@ -363,6 +363,156 @@ example : ∃ p c p', acquire ⟨1, 15000, 75000⟩ 5 0 p = (p', c, true) :=
   ⟨⟨[(0, [⟨7, 0, 1, 2, [], false⟩])], [], 8⟩, _, _, rfl⟩
 
 
+/-! ### exclusive use of a socket -/
+
+/-- for every authority: no socket id occurs twice among its idle connections and the connections
+held by its requests, and every id was issued by this pool -/
+def Excl (p : Pool) : Prop := ∀ a, (idsOf a p).Nodup ∧ ∀ i ∈ idsOf a p, i < p.nextId
+
+theorem excl_empty : Excl Pool.empty := by
+  intro a; simp [idsOf, Pool.empty, lookup, leasedIds]
+
+theorem excl_acquire (cfg : Cfg) (now a : Nat) (p : Pool) (h : Excl p) : Excl (acquire cfg now a p).1 := by
+  unfold acquire
+  generalize hp : popUsable cfg now (lookup a p.avail) = r
+  obtain ⟨r1, rest, closed⟩ := r
+  cases r1 with
+  | some c =>
+    have hsub := popUsable_sublist cfg now _ _ _ _ hp
+    intro b
+    by_cases hb : b = a
+    · subst hb
+      obtain ⟨hnd, hlt⟩ := h b
+      simp only [idsOf, lookup_store_same, leasedIds_append, leasedIds_single, if_true]
+      have hsub' : ((c :: rest).map (·.id) ++ leasedIds b p.leases).Sublist (idsOf b p) :=
+        (hsub.map _).append_right _
+      have hperm : (rest.map (·.id) ++ (leasedIds b p.leases ++ [c.id])).Perm
+          ((c :: rest).map (·.id) ++ leasedIds b p.leases) := by
+        rw [← List.append_assoc]
+        exact (List.perm_append_comm).trans (by simp)
+      refine ⟨hperm.nodup_iff.2 (hsub'.nodup hnd), ?_⟩
+      intro i hi
+      exact hlt i (hsub'.subset ((hperm.mem_iff).1 hi))
+    · have hne : ¬ a = b := fun e => hb e.symm
+      obtain ⟨hnd, hlt⟩ := h b
+      simp only [idsOf, lookup_store_other _ _ _ _ hb, leasedIds_append, leasedIds_single, hne, if_false,
+        List.append_nil]
+      exact ⟨hnd, hlt⟩
+  | none =>
+    have hrest := popUsable_none cfg now _ _ _ hp
+    subst hrest
+    intro b
+    by_cases hb : b = a
+    · subst hb
+      obtain ⟨hnd, hlt⟩ := h b
+      simp only [idsOf, lookup_store_same, leasedIds_append, leasedIds_single, if_true, List.map_nil,
+        List.nil_append]
+      have hl : ∀ i ∈ leasedIds b p.leases, i < p.nextId := fun i hi => hlt i (by simp [idsOf, hi])
+      have hnd' : (leasedIds b p.leases).Nodup := (List.sublist_append_right _ _).nodup hnd
+      refine ⟨?_, ?_⟩
+      · rw [List.nodup_append]
+        refine ⟨hnd', by simp, ?_⟩
+        intro x hx y hy
+        simp only [List.mem_singleton] at hy
+        subst hy
+        exact Nat.ne_of_lt (hl x hx)
+      · intro i hi
+        simp only [List.mem_append, List.mem_singleton] at hi
+        rcases hi with hi | hi
+        · exact Nat.lt_succ_of_lt (hl i hi)
+        · subst hi; exact Nat.lt_succ_self _
+    · have hne : ¬ a = b := fun e => hb e.symm
+      obtain ⟨hnd, hlt⟩ := h b
+      simp only [idsOf, lookup_store_other _ _ _ _ hb, leasedIds_append, leasedIds_single, hne, if_false,
+        List.append_nil]
+      exact ⟨hnd, fun i hi => Nat.lt_succ_of_lt (hlt i hi)⟩
+
+theorem excl_release (now i : Nat) (ka : Bool) (p : Pool) (h : Excl p) : Excl (release now i ka p) := by
+  unfold release
+  cases hl : p.leases[i]? with
+  | none => simpa using h
+  | some l =>
+    obtain ⟨a, oc⟩ := l
+    cases oc with
+    | none => simpa using h
+    | some c =>
+      simp only []
+      obtain ⟨l1, l2, e1, e2⟩ := leasedIds_setAt_same p.leases i a c hl
+      cases ka with
+      | true =>
+        simp only [if_true]
+        intro b
+        obtain ⟨hnd, hlt⟩ := h b
+        by_cases hb : b = a
+        · subst hb
+          simp only [idsOf, lookup_store_same, List.map_append, List.map_cons, List.map_nil, e2] at hnd hlt ⊢
+          simp only [idsOf, e1] at hnd hlt
+          have hperm : ((lookup b p.avail).map (·.id) ++ [c.id] ++ (l1 ++ l2)).Perm
+              ((lookup b p.avail).map (·.id) ++ (l1 ++ c.id :: l2)) := by
+            rw [List.append_assoc]
+            apply List.Perm.append_left
+            simpa using (List.perm_middle (a := c.id) (l₁ := l1) (l₂ := l2)).symm
+          exact ⟨hperm.nodup_iff.2 hnd, fun i hi => hlt i ((hperm.mem_iff).1 hi)⟩
+        · have hne : a ≠ b := fun e => hb e.symm
+          simp only [idsOf, lookup_store_other _ _ _ _ hb, leasedIds_setAt_other b p.leases i a c hl hne]
+          exact ⟨hnd, hlt⟩
+      | false =>
+        simp only [Bool.false_eq_true, if_false]
+        intro b
+        obtain ⟨hnd, hlt⟩ := h b
+        by_cases hb : b = a
+        · subst hb
+          simp only [idsOf, e2]
+          simp only [idsOf, e1] at hnd hlt
+          have hsub : ((lookup b p.avail).map (·.id) ++ (l1 ++ l2)).Sublist
+              ((lookup b p.avail).map (·.id) ++ (l1 ++ c.id :: l2)) :=
+            (List.Sublist.refl _).append ((List.Sublist.refl l1).append (List.sublist_cons_self _ _))
+          exact ⟨hsub.nodup hnd, fun i hi => hlt i (hsub.subset hi)⟩
+        · have hne : a ≠ b := fun e => hb e.symm
+          simp only [idsOf, leasedIds_setAt_other b p.leases i a c hl hne]
+          exact ⟨hnd, hlt⟩
+
+theorem excl_dropLease (i : Nat) (p : Pool) (h : Excl p) : Excl (dropLease i p) := by
+  intro b
+  obtain ⟨hnd, hlt⟩ := h b
+  have hsub : (idsOf b (dropLease i p)).Sublist (idsOf b p) := by
+    simp only [idsOf, dropLease]
+    exact (List.Sublist.refl _).append (leasedIds_eraseIdx b p.leases i)
+  exact ⟨hsub.nodup hnd, fun x hx => hlt x (hsub.subset hx)⟩
+
+theorem excl_touch (id : Nat) (f : Conn → Conn) (hf : ∀ c, (f c).id = c.id) (p : Pool) (h : Excl p) :
+    Excl (touchConn id f p) := by
+  intro b
+  have : idsOf b (touchConn id f p) = idsOf b p := by
+    simp only [idsOf, touchConn, touch_idle_ids id f hf, touch_leased_ids id f hf]
+  rw [this]
+  exact h b
+
+theorem excl_step (cfg : Cfg) (p : Pool) (e : Ev) (h : Excl p) : Excl (stepEv cfg p e) := by
+  cases e with
+  | acquire a now =>
+    simp only [stepEv]
+    split
+    · exact excl_acquire cfg now a p h
+    · exact h
+  | release i ka now => exact excl_release now i ka p h
+  | dropLease i => exact excl_dropLease i p h
+  | peerSend id bs => exact excl_touch id (fun c => { c with sock := c.sock ++ bs }) (fun _ => rfl) p h
+  | peerClose id => exact excl_touch id (fun c => { c with peerClosed := true }) (fun _ => rfl) p h
+
+/-- **C17_conn_exclusive** — over every history: within an authority no socket is at the same time
+idle in the pool and held by a request, nor held by two requests, nor pooled twice; a connection
+handed to a request has left the pool, and one put back has left its request. -/
+theorem C17_conn_exclusive (cfg : Cfg) (evs : List Ev) (a : Nat) : (idsOf a (runEvs cfg evs)).Nodup := by
+  have : ∀ p, Excl p → Excl (evs.foldl (stepEv cfg) p) := by
+    induction evs with
+    | nil => intro p h; exact h
+    | cons e es ih => intro p h; exact ih _ (excl_step cfg p e h)
+  exact (this _ excl_empty a).1
+
+example : idsOf 0 (runEvs ⟨2, 15000, 75000⟩ [.acquire 0 1, .acquire 0 1, .release 0 true 2, .dropLease 0, .acquire 0 3])
+    = [1, 0] := by decide
+
 /-! ## Part 2 — the body: all byte streams, all segmentations, all close points
 
 `runBody k buf0 segs closed` is the model of `PlStream` over `Framed<_, ClientPayloadCodec>`:
